@@ -1,5 +1,7 @@
 #!/usr/bin/env python3
-"""Thorough-tier supplements, run by ./check <ID> --tier thorough before the main batch.
+"""Supplements, run by ./check <ID> before the main batch: all of them in the thorough tier; in the
+quick tier only a reduced simcheck batch for C20 (an internal arithmetic overflow is invisible in a
+release build: the value wraps and a result is returned).
 
  1. determinism self-test (all properties): 200 run indices executed under 3 process layouts,
     event-log hashes must be identical -> otherwise harness error (exit 2)
@@ -18,6 +20,7 @@ import json, os, subprocess, sys, time
 
 V = os.path.dirname(os.path.dirname(os.path.abspath(__file__)))
 prop, seed, jobs, out = sys.argv[1], int(sys.argv[2]), int(sys.argv[3]), sys.argv[4]
+tier = sys.argv[5] if len(sys.argv) > 5 else "thorough"
 env = dict(os.environ, CARGO_NET_OFFLINE="true")
 summary = {}
 rc = 0
@@ -55,6 +58,15 @@ def run_batch(binary, args, label):
 
 
 main_bin = f"{V}/target-verif/release/llg-sim"
+if tier == "quick":
+    if prop == "C20":
+        b = build("simcheck")
+        if b is None:
+            rc = 2
+        else:
+            run_batch(b, ["--tier", "quick", "--count", "2500", "--flavour", "simcheck"], "simcheck_overflow_and_debug_assertions")
+    json.dump(summary, open(out, "w"), indent=1)
+    sys.exit(rc)
 counts = json.loads(subprocess.run([main_bin, "counts"], stdout=subprocess.PIPE, text=True).stdout or "{}")
 thorough_n = counts.get(prop, {}).get("thorough", 10000)
 
